@@ -1035,6 +1035,15 @@ func (w *world) perform(a *actor, ks kindSpec, tgt *vclient.Client, j job, expec
 			}
 		}
 		closed := tgt != nil && closedNow(tgt)
+		if !kicked && (n > 0 || closed) && tgt != a.c && replyErr != "" && !expected {
+			// The target went away WITHOUT having been kicked (a kick tells the target so before
+			// its socket is closed) while the server answered the actor with a refusal: its
+			// connection was lost for another reason (on a loaded machine the server drops a
+			// client it cannot write to within 500 ms).  Not the effect of this message; the
+			// scenario has lost its target and is abandoned without a verdict.
+			w.inconclusive(fmt.Sprintf("the target %s went away without having been kicked while the server refused the actor's kick (%q): connection lost for another reason", tgtID, replyErr))
+			return outcome{wd: true}
+		}
 		out.performed = kicked || n > 0 || (closed && tgt != a.c)
 		out.complete = kicked && closed && n == moExceptTarget
 		out.detail = fmt.Sprintf("target told 'kicked': %v, its socket closed: %v, %d members saw it leave", kicked, closed, n)
